@@ -162,6 +162,16 @@ CLAIMS = {
          'on one file, every spelling of skip_verify) and 40 random sequences of loads / CA-file rewrites / waits of ten intervals against the real pool and watcher; after every step every client '
          'built by NewHTTPClient at load time opens NEW connections to the TLS servers of CA A and CA B; load results (nil / error / object identity) and handshake outcomes are compared with the '
          'pool model and with a settings-and-file-history reference in Coq.'},
+    'C06': {'note': 'Trusted: Coq kernel+vm_compute; the translator and its classification table; the OS CSPRNG. The syntactic summary cannot prove disjointness of draws (covered by the relation battery, i.e. '
+         'tested). Gallina axioms: none.',
+ 'technique': "Coq theorems on an abstract generator (time-seeded => attacker's candidate list of size <= window always contains the id; CSPRNG with draws of its own => the public view is "
+              'independent of the id) + a per-run proof obligation [secure summary = true] evaluated by coqc on an entropy-source summary REGENERATED from the Go sources by a translator (go/parser); '
+              'failing-input search: seed brute force over the measured call window, relation battery over 20,000 real draws',
+ 'text': 'PARTIAL. Machine-checked once: C06_time_seeded_predictable, C06_csprng_view_independent. Re-checked on every run against the current sources: the translator finds every session-generator '
+         'constructor used by non-test code, follows the methods that produce session id / nonce / state / verifier through the package, classifies every function outside the module against a table '
+         '(crypto/rand, oauth2.GenerateVerifier: CSPRNG; math/rand, time, pid: weak; anything unknown: Unknown) and the stateful stream objects they draw from; Coq evaluates the obligation on that '
+         'summary. Search on every run: for 5 real logins the attack of the first theorem is run for real (all seeds in the measured window, math/rand, match on public state+nonce); 20,000 logins '
+         'are drawn and checked for repeats, textual relations between the outputs of one login and of consecutive logins, and gross per-position bias.'},
     "C07": {
         "technique": "Coq proof (induction over rule/pattern lists and strings) of the trigger decision = documented function of the path component, for all rule sets, targets and regex engines; correspondence: exhaustive small-alphabet targets x rule sets through ExtAuthZFilter.Check, evaluated against model and an independent monitor by coqc vm_compute",
         "text": "Machine-checked theorems (C07_trigger_spec, C07_query_irrelevant, C07_path_split; closed under the global context) over a model of GetPathQueryFragment/stringMatch/matchTriggerRule/mustTriggerCheck, for ALL rule sets and ALL byte strings. The model is tied to the code on every run by running ExtAuthZFilter.Check of the current tree on every target over {/,a,b,.,?,#} up to length 5 (6 in thorough) for dozens of rule sets (all four match kinds, regex from a sub-grammar) and comparing with the model and with an independently written boolean spec inside Coq.",
